@@ -1,6 +1,6 @@
 #!/bin/sh
 # usage: tools/try_seed.sh <patch.diff> <Cxx> [<Cyy> ...]   -- applies a seeded change to /repo, runs checks, reverts
-patch="$1"; shift
+patch="$(readlink -f "$1")"; shift
 if ! git -C /repo apply --check "$patch" 2>/dev/null; then
   if git -C /repo apply --3way --check "$patch" 2>/dev/null; then mode="--3way"; else echo "PATCH DOES NOT APPLY: $patch"; exit 3; fi
 fi
